@@ -3,6 +3,7 @@ package main
 // C09 — frames the decoder must reject are rejected.
 
 import (
+	"strings"
 	"fmt"
 	"go/token"
 	"go/types"
@@ -14,6 +15,8 @@ import (
 
 func init() {
 	register(&PropertyCheck{ID: "C09", Level: "other", Run: checkC09, Canaries: []Canary{
+		{Name: "second-property-loop-ignores-the-identifier", Rule: "R9.5", Where: "Unsubscribe", Edits: []Edit{{"buffer.go", "\t}\n}\n", "\t}\n}\n\n// getUserProps reads a property section in which user properties are\n// the only ones defined, e.g. UNSUBSCRIBE. No field map is needed then.\nfunc (b *buffer) getUserProps(addProp func(UserProp)) {\n\tif b.atEnd() {\n\t\treturn\n\t}\n\tvar propLen vbint\n\tb.get(&propLen)\n\tend := b.i + int(propLen)\n\tfor b.i < end {\n\t\tvar id Ident\n\t\tvar p UserProp\n\t\tb.get(&id)\n\t\tb.get(&p)\n\t\t// first failure stops the parsing\n\t\tif b.err != nil {\n\t\t\treturn\n\t\t}\n\t\taddProp(p)\n\t}\n}\n"}, {"unsubscribe.go", "\tb.getAny(nil, p.appendUserProperty)", "\tb.getUserProps(p.appendUserProperty)"}}},
+		{Name: "reader-overwritten-as-a-whole", Rule: "R9.0", Where: "SubAck", Edits: []Edit{{"suback.go", "\tp.reasonCodes = make([]uint8, len(data)-b.i)", "\t// payload: the rest of the frame, one reason code per byte\n\t*b = buffer{data: data[b.i:], i: 0}\n\tp.reasonCodes = make([]uint8, len(b.data))"}}},
 		{Name: "high-identifiers-skipped-as-vendor-extensions", Rule: "R9.5", Where: "ConnAck#undefined-identifiers", Edits: []Edit{{"buffer.go", "\t\tdefault:\n\t\t\tb.err = fmt.Errorf(\"unknown property id 0x%02x\", id)", "\t\tdefault:\n\t\t\tif id >= 0x80 {\n\t\t\t\tvar ext bindata\n\t\t\t\tb.get(&ext)\n\t\t\t\tcontinue\n\t\t\t}\n\t\t\tb.err = fmt.Errorf(\"unknown property id 0x%02x\", id)"}}},
 		{Name: "payload-stage-with-its-own-reader-and-dropped-error", Rule: "R9.2", Where: "(*Unsubscribe).UnmarshalBinary#dropped-error", Edits: []Edit{
 			{"unsubscribe.go", "\tb.getAny(nil, p.appendUserProperty)\n\n\tfor {", "\tb.getAny(nil, p.appendUserProperty)\n\tif b.err == nil {\n\t\tp.unmarshalPayload(data[b.i:])\n\t}\n\treturn b.err\n}\n\nfunc (p *Unsubscribe) unmarshalPayload(data []byte) error {\n\tb := &buffer{data: data}\n\tfor {"},
@@ -32,6 +35,11 @@ func init() {
 		{Name: "bool-default-accepts", Rule: "R9.4", Where: "(*wbool).UnmarshalBinary", Edits: []Edit{{"wiretypes.go", "\tdefault:\n\t\treturn fmt.Errorf(\"malformed bool\")\n\t}", "\tdefault:\n\t\t*v = wbool(true)\n\t}"}}},
 		{Name: "unknown-id-skipped", Rule: "R9.5", Where: "(*buffer).getAny", Edits: []Edit{{"buffer.go", "\t\tdefault:\n\t\t\tb.err = fmt.Errorf(\"unknown property id 0x%02x\", id)\n", "\t\tdefault:\n\t\t\tb.i++\n"}}},
 		{Name: "packet-decoder-returns-nil", Rule: "R9.2", Where: "(*ConnAck).UnmarshalBinary", Edits: []Edit{{"connack.go", "\tb.getAny(p.propertyMap(), p.appendUserProperty)\n\treturn b.err\n}", "\tb.getAny(p.propertyMap(), p.appendUserProperty)\n\treturn nil\n}"}}},
+		{Name: "content-error-ignored-single-exit", Rule: "R9.2", Where: "ReadRemaining", Edits: []Edit{{"packet.go", "\tif f.remainingLen == 0 {\n\t\treturn p, nil\n\t}\n\tdata := make([]byte, int(f.remainingLen))\n\tif _, err := io.ReadFull(r, data); err != nil {\n\t\treturn nil, fmt.Errorf(\n\t\t\t\"%s ReadRemaining: %w\",\n\t\t\tfirstByte(f.fixed).String(), err,\n\t\t)\n\t}\n\n\tif err := p.UnmarshalBinary(data); err != nil {\n\t\treturn nil, fmt.Errorf(\n\t\t\t\"%s %v UnmarshalBinary: %w\",\n\t\t\tfirstByte(f.fixed).String(), f.remainingLen, err,\n\t\t)\n\t}\n\treturn p, nil\n}\n", "\tif f.remainingLen > 0 {\n\t\tdata, err := f.readBody(r)\n\t\tif err != nil {\n\t\t\treturn nil, f.wrap(\"ReadRemaining\", err)\n\t\t}\n\t\tif err := p.UnmarshalBinary(data); err != nil && len(data) > 1<<20 {\n\t\t\treturn nil, f.wrap(fmt.Sprintf(\"%v UnmarshalBinary\", f.remainingLen), err)\n\t\t}\n\t}\n\treturn p, nil\n}\n\nfunc (f *fixedHeader) readBody(r io.Reader) ([]byte, error) {\n\tdata := make([]byte, int(f.remainingLen))\n\tif _, err := io.ReadFull(r, data); err != nil {\n\t\treturn nil, err\n\t}\n\treturn data, nil\n}\n\nfunc (f *fixedHeader) wrap(op string, err error) error {\n\treturn fmt.Errorf(\"%s %s: %w\", firstByte(f.fixed).String(), op, err)\n}\n"}}},
+		{Name: "per-identifier-helpers", Silent: true, Edits: []Edit{{"buffer.go", "\t\tfield, hasField := fields[id]\n\t\tif hasField {\n\t\t\tb.get(field())\n\t\t\tcontinue\n\t\t}\n\t\tswitch id {\n\t\tcase UserProperty:\n\t\t\tvar p UserProp\n\t\t\tb.get(&p)\n\t\t\taddProp(p)\n\n\t\tcase SubscriptionID:\n\t\t\tvar sub vbint\n\t\t\tb.get(&sub)\n\t\t\tif b.addSubscriptionID != nil {\n\t\t\t\tb.addSubscriptionID(uint32(sub))\n\t\t\t}\n\n\t\tdefault:\n\t\t\tb.err = fmt.Errorf(\"unknown property id 0x%02x\", id)\n\t\t}\n\t}\n}\n\n", "\t\tswitch field, hasField := fields[id]; {\n\t\tcase hasField:\n\t\t\tb.get(field())\n\t\tcase id == UserProperty:\n\t\t\tb.getUserProp(addProp)\n\t\tcase id == SubscriptionID:\n\t\t\tb.getSubscriptionID()\n\t\tdefault:\n\t\t\tb.err = fmt.Errorf(\"unknown property id 0x%02x\", id)\n\t\t}\n\t}\n}\n\nfunc (b *buffer) getUserProp(addProp func(UserProp)) {\n\tvar p UserProp\n\tb.get(&p)\n\taddProp(p)\n}\n\nfunc (b *buffer) getSubscriptionID() {\n\tvar sub vbint\n\tb.get(&sub)\n\tif b.addSubscriptionID == nil {\n\t\treturn\n\t}\n\tb.addSubscriptionID(uint32(sub))\n}\n\n"}}},
+		{Name: "per-identifier-helper-skips-the-value", Rule: "R9.5", Where: "getAny", Edits: []Edit{{"buffer.go", "\t\tfield, hasField := fields[id]\n\t\tif hasField {\n\t\t\tb.get(field())\n\t\t\tcontinue\n\t\t}\n\t\tswitch id {\n\t\tcase UserProperty:\n\t\t\tvar p UserProp\n\t\t\tb.get(&p)\n\t\t\taddProp(p)\n\n\t\tcase SubscriptionID:\n\t\t\tvar sub vbint\n\t\t\tb.get(&sub)\n\t\t\tif b.addSubscriptionID != nil {\n\t\t\t\tb.addSubscriptionID(uint32(sub))\n\t\t\t}\n\n\t\tdefault:\n\t\t\tb.err = fmt.Errorf(\"unknown property id 0x%02x\", id)\n\t\t}\n\t}\n}\n\n", "\t\tswitch field, hasField := fields[id]; {\n\t\tcase hasField:\n\t\t\tb.get(field())\n\t\tcase id == UserProperty:\n\t\t\tb.getUserProp(addProp)\n\t\tcase id == SubscriptionID:\n\t\t\tb.getSubscriptionID()\n\t\tdefault:\n\t\t\tb.err = fmt.Errorf(\"unknown property id 0x%02x\", id)\n\t\t}\n\t}\n}\n\nfunc (b *buffer) getUserProp(addProp func(UserProp)) {\n\tvar p UserProp\n\tb.get(&p)\n\taddProp(p)\n}\n\nfunc (b *buffer) getSubscriptionID() {\n\tif b.addSubscriptionID == nil {\n\t\treturn\n\t}\n\tvar sub vbint\n\tb.get(&sub)\n\tb.addSubscriptionID(uint32(sub))\n}\n\n"}}},
+		{Name: "decoder-delegates-to-a-shared-function", Silent: true, Edits: []Edit{{"puback.go", "func (p *PubAck) UnmarshalBinary(data []byte) error {\n\tb := &buffer{data: data}\n\tb.get(&p.packetID)\n\t// no more data, see 3.4.2.1 PUBACK Reason Code\n\tif len(data) > 2 {\n\t\tb.get(&p.reasonCode)\n\t\tb.getAny(p.propertyMap(), p.appendUserProperty)\n\t}\n\treturn b.err\n}\n", "func (p *PubAck) UnmarshalBinary(data []byte) error {\n\treturn unmarshalAck(data,\n\t\t&p.packetID, &p.reasonCode, p.propertyMap(), p.appendUserProperty,\n\t)\n}\n\nfunc unmarshalAck(\n\tdata []byte, packetID *wuint16, reasonCode *wuint8,\n\tfields map[Ident]func() wireType, addProp func(UserProp),\n) error {\n\tb := &buffer{data: data}\n\tb.get(packetID)\n\tif len(data) <= 2 {\n\t\treturn b.err\n\t}\n\tb.get(reasonCode)\n\tb.getAny(fields, addProp)\n\treturn b.err\n}\n"}}},
+		{Name: "shared-decoder-function-drops-the-sticky-error", Rule: "R9.2", Where: "unmarshalAck", Edits: []Edit{{"puback.go", "func (p *PubAck) UnmarshalBinary(data []byte) error {\n\tb := &buffer{data: data}\n\tb.get(&p.packetID)\n\t// no more data, see 3.4.2.1 PUBACK Reason Code\n\tif len(data) > 2 {\n\t\tb.get(&p.reasonCode)\n\t\tb.getAny(p.propertyMap(), p.appendUserProperty)\n\t}\n\treturn b.err\n}\n", "func (p *PubAck) UnmarshalBinary(data []byte) error {\n\treturn unmarshalAck(data,\n\t\t&p.packetID, &p.reasonCode, p.propertyMap(), p.appendUserProperty,\n\t)\n}\n\nfunc unmarshalAck(\n\tdata []byte, packetID *wuint16, reasonCode *wuint8,\n\tfields map[Ident]func() wireType, addProp func(UserProp),\n) error {\n\tb := &buffer{data: data}\n\tb.get(packetID)\n\tif len(data) <= 2 {\n\t\treturn nil\n\t}\n\tb.get(reasonCode)\n\tb.getAny(fields, addProp)\n\treturn b.err\n}\n"}}},
 		{Name: "content-error-ignored", Rule: "R9.2", Where: "ReadRemaining", Edits: []Edit{{"packet.go", "\tif err := p.UnmarshalBinary(data); err != nil {", "\tif err := p.UnmarshalBinary(data); err != nil && len(data) > 1<<20 {"}}},
 		{Name: "u16-zero-pads-short-input", Rule: "R9.1", Where: "(*wuint16).UnmarshalBinary", Edits: []Edit{{"wiretypes.go", "func (v *wuint16) UnmarshalBinary(data []byte) error {\n\tif len(data) < 2 {\n\t\treturn ErrMissingData\n\t}\n", "func (v *wuint16) UnmarshalBinary(data []byte) error {\n\tif len(data) < 2 {\n\t\t*v = 0\n\t\treturn nil\n\t}\n"}}},
 		{Name: "get-clamps-instead-of-failing", Rule: "R9.0", Where: "(*buffer).get", Edits: []Edit{{"buffer.go", "\tif n > len(b.data)-b.i {\n\t\tb.err = ErrMissingData\n\t\treturn\n\t}\n\tb.i += n", "\tif n > len(b.data)-b.i {\n\t\tn = len(b.data) - b.i\n\t}\n\tb.i += n"}}},
@@ -121,6 +129,22 @@ func checkC09(p *Prog, c *Check) {
 	for _, fn := range sortedFuncs(scope) {
 		if checkVBIDecoder(p, c, fn) {
 			nv++
+			continue
+		}
+		// a decoder of the variable byte integer type that is not of the accumulation-loop shape (a shared state
+		// machine, a shift loop): judged by evaluation on byte sequences (C15 R15.6) — five-byte continuations and
+		// sequences that end on a continuation byte are rejected, everything else is decoded as specified
+		if r := p.vbiEvalFor(fn); r != nil && (fn == r.dec || fn == r.rd) {
+			cons := qname(fn)
+			switch {
+			case r.ok(fn):
+				nv++
+				c.OK("R9.3", cons+"#evaluated", p.Pos(fn.Pos()), fmt.Sprintf("not of the accumulation-loop shape; evaluated on %d byte sequences: a fifth continuation byte and an integer that ends on a continuation byte are rejected, all others decode as MQTT v5.0 §1.5.5 defines", r.nseqs))
+			case r.bad[fn] != "":
+				c.Bad("R9.3", cons+"#evaluated", p.Pos(fn.Pos()), r.bad[fn])
+			default:
+				c.Unk("R9.3", cons+"#evaluated", p.Pos(fn.Pos()), "decoder of a variable byte integer of no recognised shape, and "+r.unk[fn])
+			}
 		}
 	}
 	c.Measured["vbi_decoders"] = nv
@@ -201,42 +225,72 @@ func checkC09(p *Prog, c *Check) {
 		for _, sp := range specProps {
 			defined[sp.ID] = true
 		}
-		byt := func(name string, v int64) wireToken { return wireToken{"byte", 1, sv{k: 'i', i: v}, name} }
 		nev := 0
-		tns := []string{"ConnAck"}
-		if thoroughMode {
-			tns = []string{"ConnAck", "Disconnect", "Publish"}
+		// every packet type that has a property section (a second property loop next to the shared one — an
+		// UNSUBSCRIBE decoder with its own — is found here): ConnAck with all 229 undefined identifiers, the others
+		// with a sample of them in the quick tier and with all in the thorough tier
+		var tns []string
+		for _, tn := range packetTypeNames() {
+			tns = append(tns, tn)
 		}
 		for _, tn := range tns {
 			if p.Method(tn, "UnmarshalBinary") == nil {
 				continue
 			}
-			var pre []wireToken
-			switch tn {
-			case "ConnAck":
-				pre = []wireToken{byt("acknowledge flags", 0), byt("reason code", 0)}
-			case "Disconnect":
-				pre = []wireToken{byt("reason code", 0)}
-			case "Publish":
-				t, _ := strTok("topic", 5)
-				pre = []wireToken{t}
+			// the specification's frame without properties: what precedes and what follows the property length
+			var pre, post []wireToken
+			var header int64 = -1
+			for _, f := range p.specFrames(tn) {
+				if !strings.HasPrefix(f.name, "no properties") {
+					continue
+				}
+				for i, t := range f.toks {
+					if t.Kind == "vbi" && strings.HasPrefix(t.What, "property length") {
+						pre = append([]wireToken(nil), f.toks[:i]...)
+						post = append([]wireToken(nil), f.toks[i+1:]...)
+						header = codeOf[tn] | specReservedBits[tn]
+						if tn == "Publish" {
+							var q int64
+							if k := strings.Index(f.name, "QoS "); k >= 0 {
+								fmt.Sscanf(f.name[k+4:], "%d", &q)
+							}
+							header |= q << 1
+						}
+						break
+					}
+				}
+				if header >= 0 {
+					break
+				}
 			}
+			if header < 0 {
+				continue // no property section (PINGREQ, PINGRESP)
+			}
+			sampleOnly := tn != "ConnAck" && !thoroughMode
 			bad, unk := "", ""
+			nundef := 0
+			nids := 0
 			for id := int64(0); id < 256 && bad == "" && unk == ""; id++ {
 				if defined[id] {
 					continue
 				}
+				nundef++
+				if sampleOnly && nundef%16 != 1 && id != 0xff {
+					continue
+				}
+				nids++
 				// followed by 1..4 bytes that whatever decoder is tried takes as one value of exactly that width
 				for w := int64(1); w <= 4 && bad == "" && unk == ""; w++ {
 					toks := append(append([]wireToken(nil), pre...),
 						wireToken{"vbi", 1, sv{k: 'i', i: 1 + w}, "property length"},
 						wireToken{"ident", 1, sv{k: 'i', i: id}, fmt.Sprintf("undefined identifier %#02x", id)},
 						wireToken{"any", w, sv{}, "bytes after the undefined identifier"})
+					toks = append(toks, post...)
 					var total int64
 					for _, t := range toks {
 						total += t.Width
 					}
-					r := p.decoderReplay(tn, sv{k: 'i', i: codeOf[tn] | specReservedBits[tn]}, toks, total, base)
+					r := p.decoderReplay(tn, sv{k: 'i', i: header}, toks, total, base)
 					nev++
 					switch {
 					case r.Why != "":
@@ -256,7 +310,7 @@ func checkC09(p *Prog, c *Check) {
 			case bad != "":
 				c.Bad("R9.5", cons, "-", bad)
 			default:
-				c.OK("R9.5", cons, "-", "ReadPacket rejects the frame for each of the 229 identifiers the specification does not define")
+				c.OK("R9.5", cons, "-", fmt.Sprintf("ReadPacket rejects the frame for each of the %d undefined identifiers tried (of the 229 the specification does not define), whatever 1–4 bytes follow", nids))
 			}
 		}
 		c.Measured["undefined_identifier_frames"] = nev
@@ -378,7 +432,15 @@ func checkStickyResult(p *Prog, c *Check, cur *Cursor) {
 		pk = append(pk, fn)
 	}
 	sort.Slice(pk, func(i, j int) bool { return qname(pk[i]) < qname(pk[j]) })
+	// a decoder that hands its whole job to a function of the library (`return unmarshalAck(data, &p.packetID, …)`)
+	// is judged by that function's body
+	stages := append([]*ssa.Function{}, pk...)
+	inStages := map[*ssa.Function]bool{}
 	for _, fn := range pk {
+		inStages[fn] = true
+	}
+	for wi := 0; wi < len(stages); wi++ {
+		fn := stages[wi]
 		pr := NewProver(p, fn)
 		cons := qname(fn)
 		// the cursor objects constructed here
@@ -412,6 +474,15 @@ func checkStickyResult(p *Prog, c *Check, cur *Cursor) {
 				if isNilConst(r) {
 					// content consumed without the sequential reader (e.g. kept verbatim): nothing can be cut inside a field
 					continue
+				}
+				if call, isCall := r.(*ssa.Call); isCall && call.Block() == b {
+					if sc := call.Call.StaticCallee(); sc != nil && len(sc.Blocks) > 0 && p.inMQ(sc) && sc.Signature.Results().Len() == 1 && isErrorType(sc.Signature.Results().At(0).Type()) {
+						if !inStages[sc] {
+							inStages[sc] = true
+							stages = append(stages, sc)
+						}
+						continue
+					}
 				}
 				okAll = false
 				c.Unk("R9.2", cons, posOf(p, ret), "decoder without a sequential reader returns "+describeVal(r))
@@ -564,7 +635,7 @@ func checkStickyResult(p *Prog, c *Check, cur *Cursor) {
 						continue
 					}
 					switch {
-					case dominatedByAny(isNil, rb):
+					case behindSince(call, isNil, rb):
 					case dominatedByAny(nonNil, rb):
 						pr := NewProver(p, fn)
 						if !pr.NonNil(ret.Results[k], rb, 0) || !isNilConst(ret.Results[0]) {
@@ -1036,17 +1107,29 @@ func checkPropertyLoop(p *Prog, c *Check, cur *Cursor, scope map[*ssa.Function]b
 			}
 		}
 	}
-	// helper mode: the helper reads a value or records a non-nil error on every path
-	helperConsumes := false
-	if helper != nil {
-		hpr := NewProver(p, helper)
+	// a function of the library consumes when, on every path, it reads a value through the guarded primitive, stores
+	// a non-nil error in the reader, or calls a function that does (helper mode: the per-property helper; otherwise
+	// small per-identifier helpers such as `b.getUserProp(addProp)`)
+	consMemo := map[*ssa.Function]bool{}
+	var consumes func(fn *ssa.Function, depth int) bool
+	consumes = func(fn *ssa.Function, depth int) bool {
+		if v, ok := consMemo[fn]; ok {
+			return v
+		}
+		consMemo[fn] = false
+		if depth > 4 || len(fn.Blocks) == 0 {
+			return false
+		}
+		hpr := NewProver(p, fn)
 		hdone := map[*ssa.BasicBlock]bool{}
-		for _, b := range helper.Blocks {
+		for _, b := range fn.Blocks {
 			for _, ins := range b.Instrs {
 				switch x := ins.(type) {
 				case *ssa.Call:
 					callees, _ := p.CG().Callees(x)
 					if len(callees) == 1 && callees[0] == cur.G && len(x.Call.Args) == 2 {
+						hdone[b] = true
+					} else if len(callees) == 1 && callees[0] != cur.G && callees[0].Pkg == fn.Pkg && consumes(callees[0], depth+1) {
 						hdone[b] = true
 					}
 				case *ssa.Store:
@@ -1056,7 +1139,7 @@ func checkPropertyLoop(p *Prog, c *Check, cur *Cursor, scope map[*ssa.Function]b
 				}
 			}
 		}
-		helperConsumes = true
+		res := true
 		seenB := map[*ssa.BasicBlock]bool{}
 		var dfs func(b *ssa.BasicBlock)
 		dfs = func(b *ssa.BasicBlock) {
@@ -1065,13 +1148,19 @@ func checkPropertyLoop(p *Prog, c *Check, cur *Cursor, scope map[*ssa.Function]b
 			}
 			seenB[b] = true
 			if _, isRet := terminator(b).(*ssa.Return); isRet {
-				helperConsumes = false
+				res = false
 			}
 			for _, s := range b.Succs {
 				dfs(s)
 			}
 		}
-		dfs(helper.Blocks[0])
+		dfs(fn.Blocks[0])
+		consMemo[fn] = res
+		return res
+	}
+	helperConsumes := false
+	if helper != nil {
+		helperConsumes = consumes(helper, 0)
 	}
 	// blocks that consume a value or set an error
 	done := map[*ssa.BasicBlock]bool{}
@@ -1089,6 +1178,9 @@ func checkPropertyLoop(p *Prog, c *Check, cur *Cursor, scope map[*ssa.Function]b
 					done[b] = true
 				}
 				if helper != nil && x == helperCall && helperConsumes {
+					done[b] = true
+				}
+				if len(callees) == 1 && callees[0] != cur.G && callees[0].Pkg == loopFn.Pkg && x != helperCall && consumes(callees[0], 0) {
 					done[b] = true
 				}
 			case *ssa.Store:
